@@ -2139,6 +2139,13 @@ func main() {
 		write(*out, sb.String())
 		return
 	}
+	if *what == "order" {
+		sb.WriteString("\nnamespace Raft.Gen\n\n")
+		p.orderFacts(&sb)
+		sb.WriteString("end Raft.Gen\n")
+		write(*out, sb.String())
+		return
+	}
 	if *what == "timing" {
 		sb.WriteString("\nnamespace Raft.Gen\n\n")
 		p.timing(&sb)
@@ -2482,6 +2489,63 @@ func (p *pkg) src(n ast.Node) string {
 // timerFacts: every receive from a safeTimer channel (`X.C`, or an alias variable assigned from `X.C`) that is the
 // communication of a select clause or a statement of its own, with whether the statement that follows at once is
 // `X.active = false`; and the source text of safeTimer.stop / reset / newSafeTimer.
+// orderFacts: the order in which candidate.startElection persists its self vote, builds the vote request and starts
+// the goroutines that send it (C05: "whenever a vote ... is already durable"; a candidate must not ask for votes in a
+// term its disk does not hold yet). Events in source order: persist k = setVotedFor(c.term+k, ..) / setTerm(c.term+k);
+// mkreq k = voteReq{req: req{c.term+k, ..}}; spawn = a go statement.
+func (p *pkg) orderFacts(sb *strings.Builder) {
+	fd := p.funcs["candidate.startElection"]
+	if fd == nil {
+		fmt.Fprintln(os.Stderr, "astfacts: candidate.startElection not found")
+		os.Exit(2)
+	}
+	rel := func(e ast.Expr) int {
+		t := strings.ReplaceAll(p.src(e), " ", "")
+		switch t {
+		case "c.term":
+			return 0
+		case "c.term+1":
+			return 1
+		}
+		fmt.Fprintf(os.Stderr, "astfacts: order: term expression %q is not c.term or c.term+1\n", t)
+		os.Exit(2)
+		return 0
+	}
+	var evs []string
+	ast.Inspect(fd.Body, func(n ast.Node) bool {
+		switch x := n.(type) {
+		case *ast.GoStmt:
+			evs = append(evs, ".spawn")
+			return false
+		case *ast.CallExpr:
+			nm := calleeName(x)
+			if (nm == "setVotedFor" || nm == "setTerm") && len(x.Args) >= 1 {
+				evs = append(evs, fmt.Sprintf(".persist %d", rel(x.Args[0])))
+			}
+		case *ast.CompositeLit:
+			if id, ok := x.Type.(*ast.Ident); ok && id.Name == "voteReq" {
+				found := false
+				for _, el := range x.Elts {
+					if kv, ok := el.(*ast.KeyValueExpr); ok && p.src(kv.Key) == "req" {
+						if cl, ok := kv.Value.(*ast.CompositeLit); ok && len(cl.Elts) >= 1 {
+							evs = append(evs, fmt.Sprintf(".mkreq %d", rel(cl.Elts[0])))
+							found = true
+						}
+					}
+				}
+				if !found {
+					fmt.Fprintln(os.Stderr, "astfacts: order: voteReq literal without req{term, src}")
+					os.Exit(2)
+				}
+			}
+		}
+		return true
+	})
+	sb.WriteString("inductive ElectEv where\n  | persist (k : Nat) | mkreq (k : Nat) | spawn\n  deriving DecidableEq, Repr\n\n")
+	sb.WriteString("/-- candidate.startElection in source order: persist k = setVotedFor/setTerm(c.term+k); mkreq k = voteReq{req{c.term+k, ..}}; spawn = a go statement -/\n")
+	sb.WriteString("def startElectionEvents : List ElectEv := [" + strings.Join(evs, ", ") + "]\n\n")
+}
+
 func (p *pkg) timerFacts(sb *strings.Builder) {
 	type site struct {
 		fn, timer string
